@@ -486,6 +486,52 @@ def sibling(ctx, repo, results):
            f"{fa.qual} and {fb.qual} disagree on {len(diff)} (state, kind) pairs, e.g. {diff[:1]}: {ta.get(diff[0]) if diff else None} vs {tb.get(diff[0]) if diff else None}", fa.loc)
 
 
+def retransmission_carries_the_drawn_number(ctx, repo, rule):
+    """A request is retransmitted by queueing the same handler object again, and the threaded socket reads its bytes
+    when it actually sends: what goes out then must still be the number the counter handed out.  Every request builder
+    (C04's message table: builders with a sequence field) is interpreted, its content read, every message its own class
+    accepts is delivered to it through handle(), and the content read again: it must be the same symbolic bytes."""
+    from ..absint import Interp, PyRaise, Undecided
+    from ..symbytes import SymBytes
+    from .c04 import SENDER, _fields_in, build_message, can_handle, message_table, wire_of
+    interp = Interp(repo, max_depth=10)
+    rows = message_table()
+    n = 0
+    for cname, builder, args, _expect, desc in rows:
+        try:
+            fields = _fields_in(args, {})
+        except Undecided:
+            continue
+        if "seq" not in fields:
+            continue
+        for c2, b2, args2, _e2, d2 in rows:
+            if c2 != cname:
+                continue
+            try:
+                req = build_message(repo, interp, cname, builder, args)
+                before = wire_of(req, interp)
+                reply = wire_of(build_message(repo, interp, c2, b2, args2), interp)
+                if before is None or reply is None:
+                    continue
+                reply = SymBytes.of(reply)
+                reply = reply.concrete() if reply.concrete() is not None else reply
+                if not can_handle(repo, interp, repo.cls(cname), req, reply):
+                    continue
+                interp.steps = 0
+                interp.call(repo.method(cname, "handle"), req, [reply, SENDER])
+                after = wire_of(req, interp)
+            except (PyRaise, Undecided):
+                continue
+            n += 1
+            same = after is not None and SymBytes.of(before).cells == SymBytes.of(after).cells
+            ctx.ob(rule, f"{cname}.{builder}::content-fixed-under::{d2}", same,
+                   f"{cname}.{builder} ({desc}): after the pending request has handled a {d2} message its content reads {after!r}, it was built as {before!r}: "
+                   f"a retransmission (the same object queued again, bytes read at send time) no longer carries the sequence number the counter handed out",
+                   repo.method(cname, "handle").loc, sample={"rule": rule, "request": desc, "delivered": d2, "same": same})
+    ctx.count(f"{rule}:request x delivered-message pairs", n)
+    ctx.floor(rule, "request x delivered-message pairs", n, 12)
+
+
 def check(ctx):
     repo = Repo()
     ctx.exhaustive = True
@@ -494,6 +540,8 @@ def check(ctx):
     ctx.rule("R3", "counters are per-instance constants set in __init__; in GeckoUdpSocket every access is inside `with self._lock`")
     ctx.rule("R4", "kind per draw site: GeckoPackCommandProtocolHandler builders take (True), all others (False); builders never get a non-counter sequence")
     ctx.rule("R5", "both implementations identical modulo the lock")
+    ctx.rule("R6", "what a retransmission puts on the wire is the number that was handed out: the content of every pending request is unchanged by any message its handler accepts (interpreted: build, handle, read content again)")
+    retransmission_carries_the_drawn_number(ctx, repo, "R6")
     results = []
     for cname in IMPLS:
         r = fixpoint(ctx, repo, cname, ctx.tier)
